@@ -24,7 +24,7 @@ RULE = (
     "non-trivial = the expected mask has both kept and dropped bins; distinct = distinct case tuples"
 )
 ASSUMPTIONS = [
-    "box sides 1..6 (quick 1..5 plus a few larger); orientations from the finite set CUBE24 + 4 generic + 6 degenerate",
+    "box sides 1..6 (quick 1..5 plus a few larger) and three realistic boxes (64^3, 49^3, (40,56,48); thorough also 96^3) on a reduced orientation/range set; orientations from the finite set CUBE24 + 4 generic + 6 degenerate",
     "bins within 1e-5 rad of a limit plane, and Nyquist bins whose two sign readings disagree, are don't-care",
     "k -> -k symmetry is demanded only on bins without a Nyquist component (DESIGN.md R2)",
     "alignment-model entry points exercised through ZNCCAlignment (thorough: also PCC, NCC, FSC)",
@@ -64,6 +64,13 @@ def cases(tier, seed):
             for axis in ("y", "x"):
                 for rot in rots:
                     out.append({"shape": list(shape), "rot": rot, "range": list(rng), "axis": axis,
+                                "range2": list(RANGES[(ri + 1) % len(RANGES)]), "tier": tier})
+    # boxes of the size used in practice (an absolute tolerance or an index-unit slip only shows when indices are large)
+    for shape in ((64, 64, 64), (49, 49, 49), (40, 56, 48)) + (((96, 96, 96),) if tier == "thorough" else ()):
+        for ri in (0, 1, 3):
+            for axis in ("y", "x"):
+                for rot in ("cube0", "gen0", "cube5"):
+                    out.append({"shape": list(shape), "rot": rot, "range": list(RANGES[ri]), "axis": axis,
                                 "range2": list(RANGES[(ri + 1) % len(RANGES)]), "tier": tier})
     return out
 
